@@ -1,6 +1,7 @@
 package symex
 
 import (
+	"regexp"
 	"fmt"
 	"go/ast"
 	"go/constant"
@@ -13,6 +14,7 @@ import (
 	"golang.org/x/tools/go/packages"
 	"golang.org/x/tools/go/ssa"
 
+	"verif/internal/cexpr"
 	"verif/internal/contract"
 	"verif/internal/smt"
 )
@@ -86,6 +88,7 @@ type Engine struct {
 	Trace     bool
 	IfaceSpec map[string]*contract.Func // "pkg.Iface.Method" -> trusted contract
 	pure      int
+	TypeInvs  map[string]*contract.Pred
 	textCache map[token.Pos]string
 }
 
@@ -117,7 +120,7 @@ type loopInfo struct {
 func NewEngine(prog *ssa.Program, pkgs []*packages.Package) *Engine {
 	e := &Engine{Prog: prog, Pkgs: pkgs, SSAPkgs: map[string]*ssa.Package{}, Contracts: map[*ssa.Function]*contract.Func{},
 		ByKey: map[string]*contract.Func{}, Preds: map[string]*contract.Pred{}, noteSet: map[string]bool{}, constName: map[string]string{},
-		textCache: map[token.Pos]string{}, MaxPaths: 20000, IfaceSpec: map[string]*contract.Func{}, LemmaPkg: map[*contract.Lemma]string{}}
+		TypeInvs: map[string]*contract.Pred{}, textCache: map[token.Pos]string{}, MaxPaths: 20000, IfaceSpec: map[string]*contract.Func{}, LemmaPkg: map[*contract.Lemma]string{}}
 	for _, p := range prog.AllPackages() {
 		e.SSAPkgs[p.Pkg.Path()] = p
 	}
@@ -152,6 +155,10 @@ func (e *Engine) note(s string) {
 func (e *Engine) AddContracts(f *contract.File) error {
 	e.Files = append(e.Files, f)
 	for name, p := range f.Preds {
+		if strings.HasPrefix(name, "typeinv_") {
+			e.TypeInvs[f.Pkg+"."+strings.TrimPrefix(name, "typeinv_")] = p
+			continue
+		}
 		e.Preds[f.Pkg+"."+name] = p
 		e.Preds[name] = p
 	}
@@ -165,6 +172,52 @@ func (e *Engine) AddContracts(f *contract.File) error {
 		}
 		e.Preds[f.Pkg+"."+l.Name] = p
 		e.Preds[l.Name] = p
+	}
+	for _, sw := range f.Sweeps {
+		re, err := regexp.Compile(sw.Pattern)
+		if err != nil {
+			return fmt.Errorf("%s: bad sweep pattern %q: %v", f.Path, sw.Pattern, err)
+		}
+		p := e.SSAPkgs[f.Pkg]
+		if p == nil {
+			continue
+		}
+		explicit := map[string]bool{}
+		for _, fc := range f.Funcs {
+			explicit[fc.Key] = true
+		}
+		var fns []*ssa.Function
+		for _, m := range p.Members {
+			switch x := m.(type) {
+			case *ssa.Function:
+				fns = append(fns, x)
+			case *ssa.Type:
+				for _, t := range []types.Type{x.Type(), types.NewPointer(x.Type())} {
+					ms := e.Prog.MethodSets.MethodSet(t)
+					for i := 0; i < ms.Len(); i++ {
+						if fn := e.Prog.MethodValue(ms.At(i)); fn != nil && fn.Pkg == p && fn.Synthetic == "" {
+							fns = append(fns, fn)
+						}
+					}
+				}
+			}
+		}
+		sort.Slice(fns, func(i, j int) bool { return fns[i].Pos() < fns[j].Pos() })
+		seen := map[*ssa.Function]bool{}
+		for _, fn := range fns {
+			key := FuncKey(fn)
+			if seen[fn] || explicit[key] || fn.Blocks == nil || !re.MatchString(key) || fn.Name() == "init" {
+				continue
+			}
+			seen[fn] = true
+			fc := &contract.Func{Key: key, Pkg: f.Pkg, Unit: sw.Unit, Loops: map[int]*contract.Loop{}, Opts: map[string]string{"sweep": "true", "props": strings.Join(sw.Props, " ")}, File: f.Path, Raises: sw.Raises,
+				Asserts: map[string][]contract.Clause{}}
+			ev, _ := cexpr.Parse("everything")
+			fc.Modifies = []*cexpr.Node{ev}
+			fc.Requires = append(fc.Requires, sw.Requires...)
+			fc.Ensures = append(fc.Ensures, sw.Ensures...)
+			f.Funcs = append(f.Funcs, fc)
+		}
 	}
 	for _, fc := range f.Funcs {
 		if strings.HasPrefix(fc.Key, "iface ") {
